@@ -29,7 +29,28 @@ def run_table(case):
            'jw_exp': [float(x) for x in np.asarray(site.JW_exponent).reshape(-1)],
            'ops': {n: {'m': cjson(site.get_op(n).to_ndarray()), 'q': [int(x) for x in site.get_op(n).qtotal]}
                    for n in sorted(site.opnames)}}
+    if case.get('api'):
+        # every documented state label (aliases) + the read-only accessors on products of operator names, through the mirror
+        mir = mirror_of_spec([case['class'], case['kwargs']], site)
+        rng = np.random.default_rng(case.get('seed', 0))
+        out['api_problems'] = verify_site(site, mir) + verify_api(site, mir, rng, int(case.get('nwords', 8)))
     return out
+
+
+def run_ctor(case):
+    """constructor options outside the table: falsy `conserve` values (documented `str | None`), invalid values"""
+    import tenpy.networks.site as S
+    cls = getattr(S, case['class'])
+    try:
+        site = cls(**case['kwargs'])
+    except Exception as e:
+        return {'raised': type(e).__name__, 'msg': str(e)[:120]}
+    site.test_sanity()
+    return {'raised': None, 'perm': [int(x) for x in site.perm], 'labels': {str(k): int(v) for k, v in site.state_labels.items()},
+            'mod': [int(x) for x in site.leg.chinfo.mod], 'charges': [[int(x) for x in r] for r in site.leg.to_qflat()],
+            'ops': {n: cjson(site.get_op(n).to_ndarray()) for n in sorted(site.opnames)},
+            'attrs': {k: (v if isinstance(v, (str, int, float)) else repr(v)) for k, v in vars(site).items()
+                      if k in ('conserve', 'cons_N', 'cons_Sz', 'filling', 'S', 'Nmax', 'q')}}
 
 
 def run_terms(case):
@@ -57,6 +78,40 @@ def run_terms(case):
             out['coupling'] = {'i': int(i), 'j': int(j), 'op_i': str(op_i), 'op_j': str(op_j), 'opstr': str(opstr)}
         except ValueError as e:
             out['coupling'] = {'error': str(e)[:80]}
+    # the documented option op_string: an explicit string equal to the one auto-determination finds gives the same result; a plain
+    # 'JW' "just applies a string on each segment" (operators unchanged)
+    rel = []
+    cf = out['comb_flags']
+    ct = [tuple(t) for t in comb]
+    if 'multi' in out and 'ijkl' in out['multi']:
+        mc = MultiCouplingTerms(L)
+        if not any(cf):
+            s2, ij2, ops2, str2 = mc.multi_coupling_term_handle_JW(0.5, list(ct), ch.sites, 'Id')
+            if s2 != 0.5 or [int(x) for x in ij2] != out['multi']['ijkl'] or list(ops2) != out['multi']['ops'] or list(str2) != out['multi']['opstr']:
+                rel.append("multi_coupling_term_handle_JW(op_string='Id') = %s differs from the auto-determined result" % ((ij2, ops2, str2),))
+    if len(comb) >= 2 and any(cf):
+        mc = MultiCouplingTerms(L)
+        s2, ij2, ops2, str2 = mc.multi_coupling_term_handle_JW(2.0, list(ct), ch.sites, 'JW')
+        shift = ij2[0] - comb[0][1]
+        if s2 != 2.0 or list(ops2) != [a for a, _ in comb] or list(str2) != ['JW'] * (len(comb) - 1) or not 0 <= ij2[0] < L or shift % L \
+                or [int(x) - shift for x in ij2] != [b for _, b in comb]:
+            rel.append("multi_coupling_term_handle_JW(op_string='JW') = %s: documented to apply the given string on each segment" % ((ij2, ops2, str2),))
+    if 'coupling' in out and 'error' not in out['coupling']:
+        ctm = CouplingTerms(L)
+        r2 = ctm.coupling_term_handle_JW(1.0, list(ct), ch.sites, out['coupling']['opstr'])
+        if [int(r2[1]), int(r2[2]), str(r2[3]), str(r2[4]), str(r2[5])] != [out['coupling'][k] for k in ('i', 'j', 'op_i', 'op_j', 'opstr')]:
+            rel.append('coupling_term_handle_JW(op_string=%r) = %s differs from the auto-determined result' % (out['coupling']['opstr'], r2[1:]))
+    if len(comb) == 2:
+        r3 = CouplingTerms(L).coupling_term_handle_JW(1.0, list(ct), ch.sites, 'Id')
+        if [str(r3[3]), str(r3[4]), str(r3[5])] != [comb[0][0], comb[1][0], 'Id']:
+            rel.append("coupling_term_handle_JW(op_string='Id') = %s: documented to use the given string" % (r3[1:],))
+    if len(comb) == 1:
+        try:
+            MultiCouplingTerms(L).multi_coupling_term_handle_JW(1.0, list(ct), ch.sites)
+            rel.append('multi_coupling_term_handle_JW accepted an onsite term')
+        except ValueError:
+            pass
+    out['opstring_problems'] = rel
     # dense: sign * (product of the returned per-site operators and strings, in the site bases) vs oracle product of the term
     if case.get('dense') and 'multi' in out and 'ijkl' in out['multi'] and min(i for _, i in term) >= 0 and max(i for _, i in term) < L:
         ijkl, ops, opstr = out['multi']['ijkl'], out['multi']['ops'], out['multi']['opstr']
@@ -165,6 +220,7 @@ def run_grouped(case):
             ch.maps = [gen.site_to_doc_index(s, d) for s, d in zip(sites, ch.docs)]
             out['used_common'] = True
         snaps = [snapshot(s) for s in sites]
+        mirs_in = [mirror_of_spec(sp, s) for sp, s in zip(case['sites'], sites)]
         gs = S.GroupedSite(sites, labels=labels, charges=pol)
         gs.test_sanity()
         out['originals_changed'] = [[k, snapshot_diff(sn, snapshot(s))] for k, (s, sn) in enumerate(zip(sites, snaps)) if snapshot_diff(sn, snapshot(s))]
@@ -225,11 +281,112 @@ def run_grouped(case):
             if any((x != 0) if mm == 1 else (x % mm != 0) for x, mm in zip(dq, mod)):
                 probs.append('charge rule violated by %s' % name)
                 break
+    # the grouped site against its mirror: every state label (products of ALL labels of the sites, aliases included), hc_ops entries,
+    # charges of the product states per policy, accessors on products of operator names
+    rng = np.random.default_rng(int(case.get('seed', 0)) + 7)
+    gm = grouped_mirror(mirs_in, labs, 'GroupedSite', pol)
+    pv = verify_site(gs, gm)
+    probs += ['grouped site: ' + x for x in (pv or verify_api(gs, gm, rng, 2))[:2]]
+    if list(gs.labels) != list(labs) or gs.n_sites != len(sites) or gs.charges != pol:
+        probs.append('attributes labels / n_sites / charges of the GroupedSite')
+    # kron(*ops, group) and GroupedSite.kroneckerproduct: plain Kronecker products (no Jordan-Wigner strings) of operators of the sites
+    if _same_chinfo(sites):
+        pick = [sorted(s_.opnames)[int(rng.integers(len(s_.opnames)))] for s_ in sites]
+        arrs = [s_.get_op(n) for s_, n in zip(sites, pick)]
+        dense = [a.to_ndarray() for a in arrs]
+        n = len(sites)
+        T = dense[0]
+        for m_ in dense[1:]:
+            T = np.multiply.outer(T, m_)                # legs p0, p0*, p1, p1*, ...
+        try:
+            K0 = S.kron(*arrs, group=False)
+            want_l = [x for i in range(n) for x in ('p%d' % i, 'p%d*' % i)]
+            if list(K0.get_leg_labels()) != want_l or np.max(np.abs(K0.to_ndarray() - T)) > 1e-13:
+                probs.append('kron(%s, group=False): labels %s / entries differ from the outer product' % (pick, list(K0.get_leg_labels())))
+            K1 = S.kron(*arrs, group=True)
+            want_g = ['(' + '.'.join('p%d' % i for i in range(n)) + ')', '(' + '.'.join('p%d*' % i for i in range(n)) + ')']
+            if list(K1.get_leg_labels()) != want_g:
+                probs.append('kron(%s, group=True) has the labels %s, documented %s' % (pick, list(K1.get_leg_labels()), want_g))
+            else:
+                K1s = K1.split_legs().itranspose(want_l)
+                if np.max(np.abs(K1s.to_ndarray() - T)) > 1e-13 or K1.legs[0].qconj != 1 or K1.legs[1].qconj != -1:
+                    probs.append('kron(%s, group=True) differs from the outer product of the operators' % pick)
+            out['kron'] = 1
+        except Exception as e:
+            probs.append('kron(%s) raised %s: %s' % (pick, type(e).__name__, str(e)[:100]))
+        if pol == 'same':
+            try:
+                KP = gs.kroneckerproduct(arrs).to_ndarray()[np.ix_(idx, idx)]
+                want = orc.kron_all([np.asarray(dm)[np.ix_(np.argsort(mp), np.argsort(mp))] for dm, mp in zip(dense, ch.maps)])
+                if np.max(np.abs(KP - want)) > 1e-13:
+                    probs.append('GroupedSite.kroneckerproduct(%s) differs from the Kronecker product of the operators' % pick)
+            except Exception as e:
+                probs.append('kroneckerproduct(%s) raised %s: %s' % (pick, type(e).__name__, str(e)[:100]))
     out['problems'] = probs
     out['nops'] = nops
     out['dim'] = D
     out['qnumber'] = int(gs.leg.chinfo.qnumber)
     return out
+
+
+def run_species(case):
+    """spin_half_species(SpeciesSite, cons_N, cons_Sz): the two FermionSites, their charges N_up + N_down / N_up - N_down, and the
+    result USED: grouped with charges='same' it must be the SpinHalfFermionSite with the same options (states, Cu/Cd, charges)"""
+    import tenpy.networks.site as S
+    cn, cs = case['cons_N'], case['cons_Sz']
+    kw = dict(case.get('kwargs', {}))
+    Sp = S.FermionSite if case.get('as_class') else 'FermionSite'
+    try:
+        sites, names = S.spin_half_species(Sp, cn, cs, **kw)
+    except Exception as e:
+        return {'error': '%s: %s' % (type(e).__name__, str(e)[:150]), 'tb': traceback.format_exc()[-500:]}
+    probs = []
+    if list(names) != ['up', 'down'] or len(sites) != 2 or sites[0] is sites[1]:
+        probs.append('returned species names %r / %d sites' % (names, len(sites)))
+    rng = np.random.default_rng(case.get('seed', 0))
+    cnn, css = cn or 'None', cs or 'None'
+    spec = ['FermionSite', dict(kw, conserve='None')]
+    mod, cols = [], []           # documented charges: total N (parity: mod 2), 2*Sz = N_up - N_down (parity: mod 4)
+    if cnn != 'None':
+        mod.append(1 if cnn == 'N' else 2)
+        cols.append((1, 1))
+    if css != 'None':
+        mod.append(1 if css == 'Sz' else 4)
+        cols.append((1, -1))
+    mirs = []
+    for k, st in enumerate(sites):
+        m = mirror_of_spec(spec)
+        m.q = np.array([[n * c[k] for c in cols] for n in (0, 1)], dtype=np.int64).reshape(2, len(cols))
+        m.mod = list(mod)
+        m.names = [str(x) for x in st.leg.chinfo.names]
+        if len(m.names) != len(mod):
+            probs.append('site %d has the charges %s' % (k, m.names))
+            m.q = None
+        mirs.append(m)
+        pv = verify_site(st, m) or verify_api(st, m, rng, 3)
+        probs += ['%s species site: %s' % (names[k] if k < len(names) else k, x) for x in pv[:2]]
+    if probs:
+        return {'problems': probs}
+    try:
+        gs = S.GroupedSite(list(sites), charges='same')
+        gm = grouped_mirror(mirs, ['0', '1'], 'GroupedSite(spin_half_species)', 'same')
+        pv = verify_site(gs, gm) or verify_api(gs, gm, rng, 2)
+        probs += ['grouped species sites: ' + x for x in pv[:2]]
+        sf = S.SpinHalfFermionSite(cnn, css, **kw)
+        lab = {'empty': 'empty_0 empty_1', 'up': 'full_0 empty_1', 'down': 'empty_0 full_1', 'full': 'full_0 full_1'}
+        si = [sf.state_labels[a] for a in lab]
+        gi = [gs.state_labels[b] for b in lab.values()]
+        for a, b in [('Cu', 'C0'), ('Cd', 'C1'), ('Cdu', 'Cd0'), ('Cdd', 'Cd1'), ('Nu', 'N0'), ('Nd', 'N1'), ('JW', 'JW')]:
+            if np.max(np.abs(sf.get_op(a).to_ndarray()[np.ix_(si, si)] - gs.get_op(b).to_ndarray()[np.ix_(gi, gi)])) > 1e-14:
+                probs.append('operator %s of the grouped species sites is not %s of SpinHalfFermionSite(%r, %r)' % (b, a, cnn, css))
+        qs, qg = sf.leg.to_qflat()[si], gs.leg.to_qflat()[gi]
+        ms = [int(x) for x in sf.leg.chinfo.mod]
+        if ms != [int(x) for x in gs.leg.chinfo.mod] or any(((x - y) % m_ if m_ > 1 else x - y) != 0 for r1, r2 in zip(qs, qg) for x, y, m_ in zip(r1, r2, ms)):
+            probs.append('charges of the grouped species sites %s (mod %s) differ from those of SpinHalfFermionSite(%r, %r) %s'
+                         % (qg.tolist(), list(gs.leg.chinfo.mod), cnn, css, qs.tolist()))
+    except Exception as e:
+        probs.append('using the species sites raised %s: %s' % (type(e).__name__, str(e)[:150]))
+    return {'problems': probs}
 
 
 def run_corr(case):
@@ -243,16 +400,39 @@ def run_corr(case):
     for (a, b) in case['pairs']:
         r = {'a': a, 'b': b}
         try:
-            C = psi.correlation_function(a, b, **case.get('kwargs', {}))
-            s1 = case.get('kwargs', {}).get('sites1', list(range(L)))
-            s2 = case.get('kwargs', {}).get('sites2', list(range(L)))
+            kw = dict(case.get('kwargs', {}))
+            if case.get('oplists'):
+                # operators given as lists: ops1[i] acts on site i
+                a_, b_ = a, b
+                a = [a_[i % len(a_)] for i in range(L)]
+                b = [b_[i % len(b_)] for i in range(L)]
+                r['a'], r['b'] = a_, b_
+            C = psi.correlation_function(a, b, **kw)
+
+            def rng_(x):
+                return list(range(L)) if x is None else (list(range(x)) if isinstance(x, int) else sorted(x))
+            s1, s2 = rng_(kw.get('sites1')), rng_(kw.get('sites2'))
+            oa = (lambda i: a[i]) if isinstance(a, list) else (lambda i: a)
+            ob = (lambda j: b[j]) if isinstance(b, list) else (lambda j: b)
             want = np.empty((len(s1), len(s2)), dtype=complex)
             for x, i in enumerate(s1):
                 for y, j in enumerate(s2):
-                    want[x, y] = gen.expect_window(th, orc.term_op(ch.docs, [(a, i), (b, j)]), th)
-            r['diff'] = float(np.max(np.abs(C - want)))
-            r['arg'] = [int(x) for x in np.unravel_index(np.argmax(np.abs(C - want)), C.shape)]
+                    want[x, y] = gen.expect_window(th, orc.term_op(ch.docs, [(oa(i), i), (ob(j), j)]), th)
+            r['diff'] = float(np.max(np.abs(C - want))) if C.shape == want.shape else 1e9
+            r['arg'] = [int(x) for x in np.unravel_index(np.argmax(np.abs(C - want)), C.shape)] if C.shape == want.shape else list(C.shape)
             r['norm'] = float(np.max(np.abs(want)))
+            if case.get('refuse') and not isinstance(a, list) and ch.docs[0].needs_JW(a) and ch.docs[0].needs_JW(b):
+                # documented refusals: only one of the two operators needs a string / a string is needed but str_on_first=False
+                for what, f_ in [('mixed', lambda: psi.correlation_function(a, 'N' if 'N' in ch.sites[0].opnames else 'Ntot')),
+                                 ('str_on_first=False', lambda: psi.correlation_function(a, b, str_on_first=False))]:
+                    try:
+                        f_()
+                        r['not_refused'] = what
+                    except ValueError:
+                        pass
+                # the explicit string opstr='JW' is what autoJW inserts
+                C2 = psi.correlation_function(a, b, opstr='JW', **kw)
+                r['opstr_diff'] = float(np.max(np.abs(C2 - C)))
         except Exception as e:
             r['error'] = '%s: %s' % (type(e).__name__, str(e)[:150])
         res.append(r)
@@ -265,39 +445,131 @@ def run_corr(case):
 # state labels (label -> basis index -> matrix elements)
 # ---------------------------------------------------------------------------------------------------------------------
 class Mirror:
-    def __init__(self, labels, ops, simple, tag):
+    def __init__(self, labels, ops, simple, tag, alias=None, hc=None, q=None, mod=None, names=None):
         self.labels = list(labels)          # primary state label per doc-basis index
         self.ops = dict(ops)                # name -> (matrix in the doc basis, needs_JW)
         self.simple = simple                # a predefined site (Site.perm is documented) / a GroupedSite
         self.tag = tag
+        self.alias = dict(alias or {})      # additional documented state label -> doc-basis index
+        # name -> True (hc_ops must have an entry) / False (must not: added with hc=False) / None (either)
+        self.hc = None if hc is None else dict(hc)
+        # charges of the states in the doc basis (None = not tracked), one column per charge
+        self.q = None if q is None else np.array(q, dtype=np.int64).reshape(len(self.labels), -1)
+        self.mod = None if mod is None else [int(x) for x in mod]
+        self.names = None if names is None else [str(x) for x in names]
 
     def copy(self, tag=None):
-        return Mirror(self.labels, self.ops, self.simple, tag or self.tag)
+        return Mirror(self.labels, self.ops, self.simple, tag or self.tag, self.alias, self.hc, self.q, self.mod, self.names)
+
+    def charges_from(self, site):
+        """trust the charges of a freshly constructed predefined site (their consistency with the operators is what the table stream
+        and T12_charges_consistent check); every later transformation of them is predicted from the documentation"""
+        idx, p = label_index(site, self)
+        if idx is None:
+            return self
+        self.q = np.array(site.leg.to_qflat(), dtype=np.int64).reshape(len(self.labels), -1)[idx]
+        self.mod = [int(x) for x in site.leg.chinfo.mod]
+        self.names = [str(x) for x in site.leg.chinfo.names]
+        return self
+
+    def drop_charges(self):
+        self.q, self.mod, self.names = np.zeros((len(self.labels), 0), dtype=np.int64), [], []
 
 
-def mirror_of_spec(spec):
+def mirror_of_spec(spec, site=None):
     cls, kw = spec
     kw = {k: v for k, v in kw.items() if not k.startswith('_')}
     doc = orc.doc_site(cls, kw)
     excl = orc.excluded_ops(cls, kw)
     ops = {n: (m, n in doc.need_JW) for n, m in doc.ops.items() if n not in excl}
-    return Mirror(doc.labels, ops, True, '%s(%s)' % (cls, ', '.join('%s=%r' % kv for kv in sorted(spec[1].items()))))
+    alias = {a: doc.labels.index(b) for a, b in orc.doc_aliases(cls, kw).items()}
+    # every operator of the predefined sites has its hermitian conjugate among the operators of the site
+    mir = Mirror(doc.labels, ops, True, '%s(%s)' % (cls, ', '.join('%s=%r' % kv for kv in sorted(spec[1].items()))), alias=alias,
+                 hc={n: True for n in ops})
+    if site is not None:
+        mir.charges_from(site)
+    return mir
 
 
-def grouped_mirror(mirs, labs, tag):
+def grouped_mirror(mirs, labs, tag, pol=None):
     import itertools
     dims = [len(m.labels) for m in mirs]
-    labels = [' '.join(m.labels[t[k]] + '_' + labs[k] for k, m in enumerate(mirs)) for t in itertools.product(*[range(d) for d in dims])]
+    tuples = list(itertools.product(*[range(d) for d in dims]))
+    labels = [' '.join(m.labels[t[k]] + '_' + labs[k] for k, m in enumerate(mirs)) for t in tuples]
+    # "set state labels for ' '.join(state[i]+'_'+labels[i])": for EVERY state label of the sites, aliases included
+    alias = {}
+    per_site = [[(lab, k) for k, lab in enumerate(m.labels)] + list(m.alias.items()) for m in mirs]
+    for combo in itertools.product(*per_site):
+        lab = ' '.join(c[0] + '_' + labs[k] for k, c in enumerate(combo))
+        alias[lab] = int(np.ravel_multi_index([c[1] for c in combo], dims))
+    for lab in labels:
+        alias.pop(lab)
     JWs = [m.ops['JW'][0] for m in mirs]
     Ids = [np.eye(d, dtype=complex) for d in dims]
     ops = {'Id': (orc.kron_all(Ids), False), 'JW': (orc.kron_all(JWs), True)}
+    hc = {'Id': True, 'JW': True}
     for k, m in enumerate(mirs):
         for n, (M, jw) in m.ops.items():
             if n == 'Id':
                 continue
             mats = [(JWs[x] if jw else Ids[x]) if x < k else (M if x == k else Ids[x]) for x in range(len(mirs))]
             ops[n + labs[k]] = (orc.kron_all(mats), jw)
-    return Mirror(labels, ops, False, tag)
+            hc[n + labs[k]] = None if m.hc is None else m.hc.get(n)
+    g = Mirror(labels, ops, False, tag, alias=alias, hc=hc)
+    if pol is not None and all(m.q is not None for m in mirs):
+        if pol == 'drop':
+            g.drop_charges()
+        elif pol == 'same':
+            # "the total charge is the sum of the charges on the individual sites" (common ChargeInfo)
+            if all(m.mod == mirs[0].mod and m.names == mirs[0].names for m in mirs):
+                g.q = np.array([sum(m.q[t[k]] for k, m in enumerate(mirs)) for t in tuples], dtype=np.int64).reshape(len(tuples), -1)
+                g.mod, g.names = list(mirs[0].mod), list(mirs[0].names)
+        elif pol == 'independent':
+            # "the charges are conserved separately"
+            g.q = np.array([np.concatenate([m.q[t[k]] for k, m in enumerate(mirs)]) for t in tuples], dtype=np.int64).reshape(len(tuples), -1)
+            g.mod = [x for m in mirs for x in m.mod]
+            g.names = [x for m in mirs for x in m.names]
+    return g
+
+
+def predict_common_charges(mirs, new_charges, new_names=None, new_mod=None):
+    """set_common_charges on the mirrors, from its documentation.  Returns 'ok' / 'mod' (documented ValueError: charges of a
+    different mod nature get combined) / 'unknown' (charges of some mirror are not tracked)"""
+    if any(m.q is None for m in mirs):
+        for m in mirs:
+            m.q = m.mod = m.names = None
+        return 'unknown'
+    if new_charges == 'same':
+        # charges with the same name match, charges with different names are independently conserved
+        order = []
+        for s, m in enumerate(mirs):
+            for i, n in enumerate(m.names):
+                if n not in order:
+                    order.append(n)
+        new_charges = [[(1, s, i) for s, m in enumerate(mirs) for i, n in enumerate(m.names) if n == name] for name in order]
+    elif new_charges == 'drop':
+        new_charges = []
+    elif new_charges == 'independent':
+        new_charges = [[(1, s, i)] for s, m in enumerate(mirs) for i in range(len(m.names))]
+    res = []
+    for lst in new_charges:
+        lst = [(f, s, (mirs[s].names.index(i) if isinstance(i, str) else i)) for f, s, i in lst]
+        res.append(lst)
+    names = list(new_names) if new_names is not None else [mirs[lst[0][1]].names[lst[0][2]] for lst in res]
+    if new_mod is None:
+        mod = [mirs[lst[0][1]].mod[lst[0][2]] for lst in res]
+        if any(mirs[s].mod[i] != mod[k] for k, lst in enumerate(res) for _, s, i in lst):
+            return 'mod'
+    else:
+        mod = [int(x) for x in new_mod]
+    for s, m in enumerate(mirs):
+        q = np.zeros((len(m.labels), len(res)), dtype=np.int64)
+        for k, lst in enumerate(res):
+            for f, s2, i in lst:
+                if s2 == s:
+                    q[:, k] += np.array(np.rint(f * m.q[:, i]), dtype=np.int64)
+        m.q, m.mod, m.names = q, list(mod), list(names)
+    return 'ok'
 
 
 def label_index(site, mir):
@@ -310,6 +582,15 @@ def label_index(site, mir):
     if sorted(idx) != list(range(len(mir.labels))):
         return None, 'state labels %s -> %s are not a bijection onto the basis' % (mir.labels[:6], idx[:6])
     return idx, None
+
+
+def _cols(q, mod, names):
+    q = np.asarray(q).reshape(len(q), -1) if len(q) else np.zeros((0, len(mod)), dtype=np.int64)
+    out = []
+    for k, (m, n) in enumerate(zip(mod, names)):
+        col = q[:, k]
+        out.append((str(n), int(m), tuple(int(x) % int(m) if int(m) > 1 else int(x) for x in col)))
+    return sorted(out)
 
 
 def verify_site(site, mir):
@@ -325,6 +606,14 @@ def verify_site(site, mir):
     idx, p = label_index(site, mir)
     if idx is None:
         return probs + [p]
+    # every documented label (aliases included) names the documented state, and there are no other labels
+    want = {lab: idx[k] for k, lab in enumerate(mir.labels)}
+    want.update({a: idx[k] for a, k in mir.alias.items()})
+    got = {str(k): int(v) for k, v in site.state_labels.items()}
+    if got != want:
+        bad = sorted(k for k in set(got) | set(want) if got.get(k) != want.get(k))[:4]
+        probs.append('state labels %s: the site has %s, documented (alias of the same state) %s'
+                     % (bad, [got.get(k) for k in bad], [want.get(k) for k in bad]))
     if mir.simple:
         perm = [int(x) for x in site.perm]
         if sorted(perm) != list(range(d)):
@@ -357,6 +646,133 @@ def verify_site(site, mir):
             probs.append('hc_ops pairs %s with %s' % (a, b))
         if a not in names or b not in names:
             probs.append('hc_ops mentions %s/%s which is not an operator' % (a, b))
+    if mir.hc is not None:
+        for n in sorted(names & set(mir.hc)):
+            if mir.hc[n] is True and n not in site.hc_ops:
+                probs.append('operator %s lost its hc_ops entry' % n)
+            elif mir.hc[n] is False and n in site.hc_ops:
+                probs.append('operator %s (added with hc=False) has the hc_ops entry %r' % (n, site.hc_ops[n]))
+    if mir.q is not None:
+        ch = site.leg.chinfo
+        qs = np.array(site.leg.to_qflat(), dtype=np.int64).reshape(d, -1)[idx]
+        got = _cols(qs, [int(x) for x in ch.mod], [str(x) for x in ch.names])
+        want = _cols(mir.q, mir.mod, mir.names)
+        if got != want:
+            probs.append('charges of the states %s (name, mod, values): the site has %s, the documentation of the calls made gives %s'
+                         % (mir.labels[:6], got, want))
+    return probs
+
+
+def verify_api(site, mir, rng, nwords=3):
+    """the read-only accessors of Site on `site`: state_index / state_indices, get_op / op_needs_JW / valid_opname /
+    get_hc_op_name / multiply_op_names / multiply_operators on PRODUCTS of operator names, onsite_ops, charge_to_JW_signs"""
+    probs = []
+    idx, p = label_index(site, mir)
+    if idx is None:
+        return [p]
+    d = len(idx)
+    ix = np.ix_(idx, idx)
+    want = {lab: idx[k] for k, lab in enumerate(mir.labels)}
+    want.update({a: idx[k] for a, k in mir.alias.items()})
+    labs = sorted(want)
+    for lab in labs:
+        try:
+            g = site.state_index(lab)
+        except Exception as e:
+            g = '%s' % type(e).__name__
+        if g != want[lab]:
+            probs.append('state_index(%r) = %r, documented state has index %d' % (lab, g, want[lab]))
+            break
+    k = int(rng.integers(d))
+    if site.state_index(k) != k or site.state_index(np.int64(k)) != k:
+        probs.append('state_index(%d) = %r' % (k, site.state_index(k)))
+    mixed = [labs[int(rng.integers(len(labs)))] if rng.random() < 0.7 else int(rng.integers(d)) for _ in range(4)]
+    try:
+        gi = [int(x) for x in site.state_indices(mixed)]
+        if gi != [want.get(x, x) for x in mixed]:
+            probs.append('state_indices(%r) = %r, documented %r' % (mixed, gi, [want.get(x, x) for x in mixed]))
+    except Exception as e:
+        probs.append('state_indices(%r) raised %s' % (mixed, type(e).__name__))
+    try:
+        site.state_index('no such state')
+        probs.append("state_index('no such state') did not raise KeyError")
+    except KeyError:
+        pass
+    except Exception as e:
+        probs.append("state_index('no such state') raised %s instead of KeyError" % type(e).__name__)
+    names = sorted(set(site.opnames) & set(mir.ops))
+    if sorted(site.onsite_ops) != sorted(site.opnames) or any(site.onsite_ops[n] is not getattr(site, n) for n in site.opnames):
+        probs.append('onsite_ops is not {name: attribute} of opnames')
+    for bogus in ['NoSuchOp', names[0] + ' NoSuchOp', 'NoSuchOp ' + names[0]]:
+        if site.valid_opname(bogus):
+            probs.append('valid_opname(%r) is True' % bogus)
+        try:
+            site.get_op(bogus)
+            probs.append('get_op(%r) did not raise' % bogus)
+        except ValueError:
+            pass
+        except Exception as e:
+            probs.append('get_op(%r) raised %s instead of ValueError' % (bogus, type(e).__name__))
+    if site.multiply_op_names([]) != 'Id' or np.max(np.abs(site.multiply_operators([]).to_ndarray() - np.eye(d))) > 0:
+        probs.append('empty product is not Id')
+    for w_ in range(nwords):
+        n = int(rng.integers(1, 4)) if w_ else 2
+        word = [names[int(rng.integers(len(names)))] for _ in range(n)]
+        name = ' '.join(word)
+        M = np.eye(d, dtype=complex)
+        jw = False
+        for x in word:
+            M = M @ mir.ops[x][0]
+            jw = jw != bool(mir.ops[x][1])
+
+        def cmp(what, arr):
+            diff = np.abs(arr.to_ndarray()[ix] - M)
+            if np.max(diff) > 1e-11:
+                r, c = np.unravel_index(np.argmax(diff), diff.shape)
+                probs.append('%s: <%s|.|%s> = %s, the product of the documented operators (right-most acts first) gives %s'
+                             % (what, mir.labels[r], mir.labels[c], complex(np.round(arr.to_ndarray()[ix][r, c], 12)), complex(np.round(M[r, c], 12))))
+        try:
+            cmp('get_op(%r)' % name, site.get_op(name))
+            if bool(site.op_needs_JW(name)) != jw:
+                probs.append('op_needs_JW(%r) = %s, documented parity of the factors %s' % (name, site.op_needs_JW(name), jw))
+            if not site.valid_opname(name):
+                probs.append('valid_opname(%r) is False' % name)
+            nm = site.multiply_op_names(list(word))
+            cmp('get_op(multiply_op_names(%r) = %r)' % (word, nm), site.get_op(nm))
+            mix = [x if rng.random() < 0.5 else site.get_op(x) for x in word]
+            cmp('multiply_operators(%r, some given as arrays)' % word, site.multiply_operators(mix))
+            if mir.hc is not None:
+                st = [mir.hc.get(x) for x in word]
+                if all(x is True for x in st):
+                    hn = site.get_hc_op_name(name)
+                    H = site.get_op(hn).to_ndarray()[ix]
+                    if np.max(np.abs(H - M.conj().T)) > 1e-11 or not site.valid_opname(hn):
+                        probs.append('get_hc_op_name(%r) = %r, which is not the hermitian conjugate of the product' % (name, hn))
+                elif any(x is False for x in st):
+                    try:
+                        hn = site.get_hc_op_name(name)
+                        probs.append('get_hc_op_name(%r) = %r although a factor was added with hc=False' % (name, hn))
+                    except ValueError:
+                        pass
+        except Exception as e:
+            probs.append('accessors on the product %r raised %s: %s' % (name, type(e).__name__, str(e)[:100]))
+    # charge_to_JW_signs: when the site defines charge_to_JW_parity, the charges of the states give the diagonal of JW
+    JWd = np.real(np.diag(mir.ops['JW'][0]))
+    q = np.asarray(site.leg.to_qflat())
+    if getattr(site, 'charge_to_JW_parity', None) is not None:
+        try:
+            sg = np.asarray(site.charge_to_JW_signs(q))[idx]
+            s1 = np.array([site.charge_to_JW_signs(q[i]) for i in idx])
+            if sg.shape != (d,) or np.max(np.abs(sg - JWd)) > 1e-14 or np.max(np.abs(s1 - JWd)) > 1e-14:
+                probs.append('charge_to_JW_signs(charges of the states) = %s, diagonal of JW %s' % (list(sg), list(JWd)))
+        except Exception as e:
+            probs.append('charge_to_JW_signs raised %s: %s' % (type(e).__name__, str(e)[:80]))
+    else:
+        try:
+            site.charge_to_JW_signs(q)
+            probs.append('charge_to_JW_signs did not raise although charge_to_JW_parity is not defined')
+        except ValueError:
+            pass
     return probs
 
 
@@ -386,17 +802,92 @@ def _unique(objs):
     return out
 
 
+def _hc_state(mir, M):
+    """what add_op(hc=None) is documented to find for the matrix M (doc basis): True / False / None (numerically undecided)"""
+    dh = np.max(np.abs(M - M.conj().T))
+    ds = [np.max(np.abs(X.conj().T - M)) for X, _ in mir.ops.values()]
+    dmin = min([dh] + ds)
+    if dmin < 1e-15:
+        return True
+    if dmin > 1e-12:
+        return False
+    return None
+
+
+def _perm_return_problem(what, perm, before, after):
+    """the returned permutation of the physical leg: new index k holds the state that had index perm[k]"""
+    try:
+        perm = [int(x) for x in perm]
+        if sorted(perm) != list(range(len(perm))):
+            return '%s returned %s, not a permutation' % (what, perm)
+        for lab, old in before.items():
+            if perm[after[lab]] != old:
+                return ('%s returned perm=%s, but the state %r moved from index %d to index %d (perm[%d] = %d)'
+                        % (what, perm, lab, old, after[lab], after[lab], perm[after[lab]]))
+    except Exception as e:
+        return '%s returned %r (%s)' % (what, perm, type(e).__name__)
+    return None
+
+
+def _bad_call(S, npc, site, mir, which):
+    """calls documented to be refused (ValueError) or to do nothing: returns (description, problem or None, applicable)"""
+    names = sorted(n for n in mir.ops if n not in ('Id', 'JW'))
+    d = len(mir.labels)
+    which = which % 13
+    calls = {
+        0: ('add_op(existing name)', lambda: site.add_op(names[0], np.eye(d), hc=False), ValueError),
+        1: ("add_op('not valid!')", lambda: site.add_op('not valid!', np.eye(d), hc=False), ValueError),
+        2: ('add_op(wrong shape)', lambda: site.add_op('W1x', np.eye(d + 1), hc=False), ValueError),
+        3: ('rename_op(to an existing name)', lambda: site.rename_op(names[0], names[-1] if len(names) > 1 else 'Id'), ValueError),
+        4: ("add_op('leg')", lambda: site.add_op('leg', np.eye(d), hc=False), ValueError),
+        6: ('set_common_charges([site, site])', lambda: S.set_common_charges([site, site]), ValueError),
+        7: ("GroupedSite(charges='bogus')", lambda: S.GroupedSite([site, site], charges='bogus'), ValueError),
+        8: ("set_common_charges(new_charges='bogus')", lambda: S.set_common_charges([site], 'bogus'), ValueError),
+        9: ('kron(one operator)', lambda: S.kron(site.Id), ValueError),
+        10: ('rename_op(a, a)', lambda: site.rename_op(names[0], names[0]), None),
+        11: ('set_common_charges(wrong old_charge_index)', lambda: S.set_common_charges([site], [[(1, 0, site.leg.chinfo.qnumber)]]), ValueError),
+    }
+    if which == 5:
+        # a dense operator that violates the charges of the site
+        cand = [n for n in names if np.any(site.get_op(n).qtotal != 0)]
+        if not cand:
+            return 'add_op(charge violating)', None, False
+        idx, _ = label_index(site, mir)
+        Ms = np.zeros((d, d), dtype=complex)
+        Ms[np.ix_(idx, idx)] = mir.ops[cand[0]][0] + np.eye(d)
+        calls[5] = ('add_op(operator violating the charges)', lambda: site.add_op('W5x', Ms, hc=False, permute_dense=False), ValueError)
+    if which == 12:
+        q = np.asarray(site.leg.to_qflat())
+        if q.shape[1] < 1 or not np.any(q[:, 0] % 2):
+            return 'set_common_charges(float factor)', None, False
+        calls[12] = ('set_common_charges(factor 0.5 -> non-integer charges)', lambda: S.set_common_charges([site], [[(0.5, 0, 0)]]), ValueError)
+    what, fn, exc = calls[which]
+    try:
+        fn()
+    except Exception as e:
+        if exc is None or not isinstance(e, exc):
+            return what, '%s raised %s: %s' % (what, type(e).__name__, str(e)[:100]), True
+        return what, None, True
+    if exc is not None:
+        return what, '%s did not raise %s' % (what, exc.__name__), True
+    return what, None, True
+
+
 def run_book(case):
     """a sequence of site-transforming calls on a pool of sites; after EVERY call all sites of the pool (originals, deep copies,
-    grouped sites) are re-verified against their mirrors.  Steps address the predefined sites (and their deep copies) by index
-    and the grouped sites created so far by ['g', r] (r modulo their number)."""
+    grouped sites) are re-verified against their mirrors (operators, every state label incl. aliases, hc_ops entries, charges of the
+    states, and the read-only accessors on products of operator names).  Steps address the predefined sites (and their deep copies)
+    by index and the grouped sites created so far by ['g', r] (r modulo their number)."""
     import copy
     import tenpy.networks.site as S
     import tenpy.linalg.np_conserved as npc
     rng = np.random.default_rng(case.get('seed', 0))
-    simple = [[gen.make_site(spec), mirror_of_spec(spec)] for spec in case['sites']]
+    simple = []
+    for spec in case['sites']:
+        st = gen.make_site(spec)
+        simple.append([st, mirror_of_spec(spec, st)])
     grouped = []
-    out = {'problems': [], 'applied': [], 'verified': 0, 'permuted': False}
+    out = {'problems': [], 'applied': [], 'verified': 0, 'permuted': False, 'opts': []}
 
     def everything():
         return simple + grouped
@@ -409,9 +900,33 @@ def run_book(case):
     def verify_all(si, step):
         for k, (s, m) in enumerate(everything()):
             p = verify_site(s, m)
+            if not p:
+                p = verify_api(s, m, rng, 2)
             out['verified'] += 1
             if p:
                 out['problems'].append({'step': si, 'op': step, 'site': k, 'tag': m.tag, 'probs': p[:3]})
+
+    def common_same(sites, mirs):
+        """set_common_charges(.., 'same') as the documented preparation of GroupedSite(charges='same')"""
+        us = _unique(sites)
+        um = [mirs[[i for i, x in enumerate(sites) if x is u][0]] for u in us]
+        snap = [(m.q, m.mod, m.names) for m in um]
+        pred = predict_common_charges(um, 'same')
+        try:
+            S.set_common_charges(us, 'same')
+        except ValueError as e:
+            if 'different `mod` nature' not in str(e):
+                raise
+            for m, (q_, mo, na) in zip(um, snap):
+                m.q, m.mod, m.names = q_, mo, na
+            if pred == 'ok':
+                out['problems'].append({'step': -2, 'op': 'set_common_charges same', 'site': 0, 'tag': um[0].tag,
+                                        'probs': ['refused charges of one mod nature: ' + str(e)[:80]]})
+            return False
+        if pred == 'mod':
+            out['problems'].append({'step': -2, 'op': 'set_common_charges same', 'site': 0, 'tag': um[0].tag,
+                                    'probs': ['combined charges of a different mod nature without the documented ValueError']})
+        return True
 
     verify_all(-1, 'construction')
     if out['problems']:
@@ -422,6 +937,7 @@ def run_book(case):
         before = [dict(s.state_labels) for s, _ in everything()]
         snaps = [(s, m, snapshot(s)) for s, m in everything()]
         touched = []            # sites the call is allowed to modify
+        extra = []
         try:
             if kind in ('group', 'group_sites'):
                 idxs, pol, labels = step[1], step[2], step[3]
@@ -429,16 +945,14 @@ def run_book(case):
                 mirs = [simple[i][1] for i in idxs]
                 if pol == 'same' and not _same_chinfo(sites):
                     touched = _unique(sites)
-                    try:
-                        S.set_common_charges(_unique(sites), 'same')
-                    except ValueError as e:
-                        if 'different `mod` nature' not in str(e):
-                            raise
+                    if not common_same(sites, mirs):
                         status = 'skipped'
                 if status == 'ok' and kind == 'group':
                     labs = labels or [str(i) for i in range(len(sites))]
                     gs = S.GroupedSite(sites, labels=labels, charges=pol)
-                    grouped.append([gs, grouped_mirror(mirs, labs, 'GroupedSite(%s, %r)' % ([m.tag for m in mirs], pol))])
+                    if gs.n_sites != len(sites) or list(gs.labels) != list(labs) or gs.charges != pol or any(a_ is not b_ for a_, b_ in zip(gs.sites, sites)):
+                        extra.append('attributes n_sites / sites / labels / charges of the GroupedSite are not the arguments')
+                    grouped.append([gs, grouped_mirror(mirs, labs, 'GroupedSite(%s, %r)' % ([m.tag for m in mirs], pol), pol)])
                 elif status == 'ok':
                     n = 2
                     labs = labels or [str(i) for i in range(n)]
@@ -447,34 +961,79 @@ def run_book(case):
                         raise AssertionError('group_sites returned %d sites' % len(gss))
                     for g, gs in enumerate(gss):
                         mm = mirs[g * n:(g + 1) * n]
-                        grouped.append([gs, grouped_mirror(mm, labs[:len(mm)], 'group_sites(%s, %r)[%d]' % ([m.tag for m in mirs], pol, g))])
+                        grouped.append([gs, grouped_mirror(mm, labs[:len(mm)], 'group_sites(%s, %r)[%d]' % ([m.tag for m in mirs], pol, g), pol)])
             elif kind == 'set_common':
                 idxs, pol, sort = step[1], step[2], step[3]
+                opts = step[4] if len(step) > 4 else {}
                 sites = [simple[i][0] for i in idxs]
+                mirs = [simple[i][1] for i in idxs]
                 touched = sites
                 new = pol
+                new_names = new_mod = None
                 if pol in ('sum', 'diff'):
                     chs = [s.leg.chinfo for s in sites]
                     if any(c.qnumber < 1 for c in chs) or len(set(int(c.mod[0]) for c in chs)) != 1 or (pol == 'diff' and int(chs[0].mod[0]) != 1):
                         status = 'skipped'
-                    new = [[(1 if (k == 0 or pol == 'sum') else -1, k, 0) for k in range(len(sites))]]
+                    else:
+                        one = 1.0 if opts.get('float') else 1
+                        new = [[(one if (k == 0 or pol == 'sum') else -one, k, (str(chs[k].names[0]) if opts.get('stridx') else 0))
+                                for k in range(len(sites))]]
+                        if opts.get('second'):
+                            # a second new charge: the first old charge of the first site alone
+                            new.append([(1, 0, 0)])
+                        if opts.get('names'):
+                            new_names = ['Q%d' % k for k in range(len(new))]
+                        if opts.get('mod') and int(chs[0].mod[0]) == 1:
+                            new_mod = [int(opts['mod'])] * len(new)
+                        if opts.get('tuple'):
+                            new = tuple(tuple(x) for x in new)
+                elif opts.get('names') and pol == 'independent':
+                    new_names = ['Q%d' % k for k in range(sum(s.leg.chinfo.qnumber for s in sites))]
                 if status == 'ok':
+                    snapm = [(m.q, m.mod, m.names) for m in mirs]
+                    pred = predict_common_charges(mirs, [list(x) for x in new] if not isinstance(new, str) else new, new_names, new_mod)
+                    lab0 = [dict(s.state_labels) for s in sites]
                     try:
-                        S.set_common_charges(sites, new, sort_charge=bool(sort))
+                        ret = S.set_common_charges(sites, new, new_names, new_mod, sort_charge=bool(sort))
+                        if pred == 'mod':
+                            extra.append('combined charges of a different mod nature without the documented ValueError')
+                        if sort:
+                            if ret is None or len(ret) != len(sites):
+                                extra.append('set_common_charges(sort_charge=True) returned %r, documented: one permutation per site' % (ret,))
+                            else:
+                                for k, s_ in enumerate(sites):
+                                    pp = _perm_return_problem('set_common_charges for site %d' % k, ret[k], lab0[k], dict(s_.state_labels))
+                                    if pp:
+                                        extra.append(pp)
+                        elif ret is not None:
+                            extra.append('set_common_charges(sort_charge=False) returned %r' % (ret,))
+                        if not _same_chinfo(sites):
+                            extra.append('the sites do not share one ChargeInfo after set_common_charges')
                     except ValueError as e:
                         if 'different `mod` nature' not in str(e):
                             raise
+                        for m, (q_, mo, na) in zip(mirs, snapm):
+                            m.q, m.mod, m.names = q_, mo, na
+                        if pred == 'ok':
+                            extra.append('set_common_charges refused charges of one mod nature: ' + str(e)[:80])
                         status = 'skipped'
+                        touched = []
             elif kind == 'change_charge':
                 site, mir = simple[step[1]]
                 touched = [site]
                 mode = step[2]
+                ret = site
                 if mode == 'drop':
-                    site.change_charge(None)
+                    ret = site.change_charge(None)
+                    mir.drop_charges()
                 elif mode == 'perm':
                     p = rng.permutation(site.dim)
                     leg = site.leg
-                    site.change_charge(npc.LegCharge.from_qflat(leg.chinfo, leg.to_qflat()[p], leg.qconj), p)
+                    lab0 = dict(site.state_labels)
+                    ret = site.change_charge(npc.LegCharge.from_qflat(leg.chinfo, leg.to_qflat()[p], leg.qconj), p)
+                    pp = _perm_return_problem('change_charge(permute=p): p', p, lab0, dict(site.state_labels))
+                    if pp:
+                        extra.append(pp.replace('returned perm', 'was given permute'))
                 elif mode == 'mod':
                     old = site.leg
                     if old.chinfo.qnumber < 1 or any(int(m) != 1 for m in old.chinfo.mod):
@@ -482,13 +1041,17 @@ def run_book(case):
                     else:
                         N = int(step[3])
                         chinfo = npc.ChargeInfo([N] * old.chinfo.qnumber, [str(n) + '_mod_%d' % N for n in old.chinfo.names])
-                        site.change_charge(npc.LegCharge.from_qflat(chinfo, np.mod(old.to_qflat(), N), old.qconj))
+                        ret = site.change_charge(npc.LegCharge.from_qflat(chinfo, np.mod(old.to_qflat(), N), old.qconj))
+                        if mir.q is not None:
+                            mir.q, mir.mod, mir.names = np.mod(mir.q, N), [N] * len(mir.mod), [str(n) + '_mod_%d' % N for n in mir.names]
                 else:
                     raise ValueError(mode)
+                if ret is not site:
+                    extra.append('change_charge did not return the modified site itself')
             elif kind == 'deepcopy':
                 site, mir = simple[step[1]]
                 simple.append([copy.deepcopy(site), mir.copy(mir.tag + ' deep copy')])
-            elif kind in ('sort_charge', 'add_op', 'rename_op', 'remove_op'):
+            elif kind in ('sort_charge', 'add_op', 'rename_op', 'remove_op', 'bad_call'):
                 t = tgt(step[1])
                 if t is None:
                     status = 'skipped'
@@ -497,22 +1060,72 @@ def run_book(case):
                     touched = [site]
                     cand = sorted(n for n in mir.ops if n not in ('Id', 'JW'))
                     if kind == 'sort_charge':
-                        site.sort_charge()
+                        bunch = bool(step[2]) if len(step) > 2 else True
+                        lab0 = dict(site.state_labels)
+                        ret = site.sort_charge(bunch=bunch)
+                        pp = _perm_return_problem('sort_charge(bunch=%s)' % bunch, ret, lab0, dict(site.state_labels))
+                        if pp:
+                            extra.append(pp)
+                        if not site.leg.sorted or (bunch and not site.leg.bunched):
+                            extra.append('leg not sorted%s after sort_charge(bunch=%s)' % (' / bunched' if bunch else '', bunch))
+                        # a second call has nothing left to do
+                        lab1 = dict(site.state_labels)
+                        ret2 = site.sort_charge(bunch=bunch)
+                        if [int(x) for x in ret2] != list(range(site.dim)) or dict(site.state_labels) != lab1:
+                            extra.append('second sort_charge(bunch=%s) returned %s / moved the labels again' % (bunch, list(ret2)))
+                    elif kind == 'bad_call':
+                        touched = []           # must leave everything as it is
+                        what, pp, appl = _bad_call(S, npc, site, mir, int(step[2]))
+                        step = list(step) + [what]
+                        if not appl:
+                            status = 'skipped'
+                        elif pp:
+                            extra.append(pp)
                     elif kind == 'add_op':
+                        opts = step[5] if len(step) > 5 else {}
                         allc = sorted(mir.ops)
                         a, b = allc[step[2] % len(allc)], allc[step[3] % len(allc)]
                         M = mir.ops[a][0] @ mir.ops[b][0]
                         jw = bool(mir.ops[a][1]) != bool(mir.ops[b][1])
                         name = 'A%dx' % si
-                        if step[4] and mir.simple:
-                            # dense matrix in the conserve=None basis, permuted by Site.perm as documented (permute_dense=True)
-                            site.add_op(name, M, need_JW=jw, hc=False, permute_dense=True)
+                        hcmode = opts.get('hc', 'False')
+                        arr = opts.get('arr') or ('dense_perm' if (step[4] and mir.simple) else 'dense_noperm')
+                        idx, p = label_index(site, mir)
+                        inv = np.ix_(idx, idx)
+
+                        def put(nm, Mat, hc):
+                            Ms = np.zeros_like(Mat)
+                            Ms[inv] = Mat
+                            if arr == 'dense_perm' and mir.simple:
+                                # dense matrix in the conserve=None basis, permuted by Site.perm as documented (permute_dense=True)
+                                site.add_op(nm, Mat, need_JW=jw, hc=hc, permute_dense=True)
+                            elif arr == 'dense_default' and (mir.simple or not site.used_sort_charge):
+                                # permute_dense=None: "the value of used_sort_charge is used"
+                                site.add_op(nm, Mat if site.used_sort_charge else Ms, need_JW=jw, hc=hc)
+                            elif arr == 'npc':
+                                site.add_op(nm, npc.Array.from_ndarray(Ms, [site.leg, site.leg.conj()]), need_JW=jw, hc=hc, permute_dense=True)
+                            else:
+                                site.add_op(nm, Ms, need_JW=jw, hc=hc, permute_dense=False)
+                        if hcmode == 'auto' and np.max(np.abs(M - M.conj().T)) > 1e-15 and any(
+                                np.max(np.abs(X.conj().T - M)) < 1e-12 and bool(f_) != jw for X, f_ in mir.ops.values()):
+                            # the only candidates for the conjugate carry the other need_JW flag (e.g. M = Z.JW on a site whose JW is
+                            # the identity): as operators with strings they are NOT conjugates; such a declaration would be inconsistent
+                            hcmode = 'False'
+                        if hcmode == 'str':
+                            # declared pair, the partner is added afterwards (as ClockSite does)
+                            name2 = 'A%dy' % si
+                            put(name, 2. * M, name2)
+                            put(name2, 2. * M.conj().T, name)
+                            mir.ops[name] = (2. * M, jw)
+                            mir.ops[name2] = (2. * M.conj().T, jw)
+                            if mir.hc is not None:
+                                mir.hc[name] = mir.hc[name2] = True
                         else:
-                            idx, p = label_index(site, mir)
-                            Ms = np.zeros_like(M)
-                            Ms[np.ix_(idx, idx)] = M
-                            site.add_op(name, Ms, need_JW=jw, hc=False, permute_dense=False)
-                        mir.ops[name] = (M, jw)
+                            st = _hc_state(mir, M) if hcmode == 'auto' else False
+                            put(name, M, None if hcmode == 'auto' else False)
+                            mir.ops[name] = (M, jw)
+                            if mir.hc is not None:
+                                mir.hc[name] = st
                         step = list(step) + ['%s.%s' % (a, b)]
                     elif not cand:
                         status = 'skipped'
@@ -521,11 +1134,19 @@ def run_book(case):
                         name = 'R%dx' % si
                         site.rename_op(old, name)
                         mir.ops[name] = mir.ops.pop(old)
+                        if mir.hc is not None:
+                            mir.hc[name] = mir.hc.pop(old, None)
                         step = list(step) + [old]
                     else:
                         old = cand[step[2] % len(cand)]
                         site.remove_op(old)
-                        mir.ops.pop(old)
+                        Mo = mir.ops.pop(old)[0]
+                        if mir.hc is not None:
+                            mir.hc.pop(old, None)
+                            # the entries of operators paired with the removed one go as well (or stay, when paired with another one)
+                            for n2, (M2, _) in mir.ops.items():
+                                if np.max(np.abs(M2.conj().T - Mo)) < 1e-12 and np.max(np.abs(M2 - M2.conj().T)) > 1e-12:
+                                    mir.hc[n2] = None
                         step = list(step) + [old]
             else:
                 raise ValueError('unknown step ' + str(kind))
@@ -536,6 +1157,8 @@ def run_book(case):
         out['applied'].append(status)
         if any(dict(s_.state_labels) != b for (s_, _, _), b in zip(snaps, before)):
             out['permuted'] = True
+        for pp in extra:
+            out['problems'].append({'step': si, 'op': step, 'site': -1, 'tag': kind, 'probs': [pp]})
         for k, (s_, m_, sn) in enumerate(snaps):
             if not any(s_ is t_ for t_ in touched):
                 dd = snapshot_diff(sn, snapshot(s_))
@@ -590,7 +1213,8 @@ def run_mpsterm(case):
         try:
             if f == 'ops_list':
                 term = T(job['term'])
-                ops, imin, extra = psin._term_to_ops_list(term, job['autoJW'], 0, job['jfr'])
+                off = int(job.get('off', 0))       # i_offset: "offset to be added to the site-indices in the term"
+                ops, imin, extra = psin._term_to_ops_list(T(term, -off), job['autoJW'], off, job['jfr'])
                 words = [[str(x) for x in w] for w in ops]
                 r = {'ops': words, 'imin': int(imin), 'extra': bool(extra)}
                 if job['autoJW']:
@@ -648,6 +1272,16 @@ def run_mpsterm(case):
                 psi2.apply_local_term(term, canonicalize=bool(job.get('canonicalize', True)))
                 v2 = gen.window_to_doc(ch, gen.dense_window(psi2, 0, L), 0).reshape(-1) * psi2.norm
                 r['diff'] = float(np.max(np.abs(v2 - wv)))
+            elif f == 'apply_op':
+                # a single fermionic operator given by NAME to apply_local_op: the open string goes to the virtual leg
+                term = [(str(job['op']), int(job['i']))]
+                r['parity'] = par(term)
+                wv = orc.term_op(docs, term) @ vec
+                r['want_norm'] = float(np.linalg.norm(wv))
+                psi2 = psi.copy()
+                psi2.apply_local_op(int(job['i']), str(job['op']), unitary=job.get('unitary'), renormalize=False)
+                v2 = gen.window_to_doc(ch, gen.dense_window(psi2, 0, L), 0).reshape(-1) * psi2.norm
+                r['diff'] = float(np.max(np.abs(v2 - wv)))
             else:
                 raise KeyError(f)
         except ValueError as e:
@@ -659,15 +1293,64 @@ def run_mpsterm(case):
     return res
 
 
+class Tracer:
+    """line recording (sys.settrace) restricted to the anchored source files of the tree under test: which lines of
+    tenpy/networks/site.py, terms.py, mps.py were executed by the cases of this payload (coverage table of harness/c12.py)"""
+    FILES = ('tenpy/networks/site.py', 'tenpy/networks/terms.py', 'tenpy/networks/mps.py')
+
+    def __init__(self):
+        self.lines = {f: set() for f in self.FILES}
+        self.local = {f: self._mk(self.lines[f]) for f in self.FILES}
+
+    @staticmethod
+    def _mk(s):
+        def local(frame, event, arg):
+            if event == 'line':
+                s.add(frame.f_lineno)
+            return local
+        return local
+
+    def _glob(self, frame, event, arg):
+        fn = frame.f_code.co_filename
+        if fn.endswith('s.py') or fn.endswith('e.py'):
+            fn = fn.replace(os.sep, '/')
+            for f in self.FILES:
+                if fn.endswith(f):
+                    self.lines[f].add(frame.f_code.co_firstlineno)
+                    return self.local[f]
+        return None
+
+    def start(self):
+        sys.settrace(self._glob)
+
+    def stop(self):
+        sys.settrace(None)
+
+    def dump(self):
+        return {f: sorted(v) for f, v in self.lines.items()}
+
+
+KINDS = {}
+
+
 def main():
     payload = json.load(open(sys.argv[1]))
-    f = {'table': run_table, 'terms': run_terms, 'mpo': run_mpo, 'grouped': run_grouped, 'corr': run_corr, 'book': run_book, 'mpsterm': run_mpsterm}[payload['kind']]
+    KINDS.update({'table': run_table, 'terms': run_terms, 'mpo': run_mpo, 'grouped': run_grouped, 'corr': run_corr, 'book': run_book,
+                  'mpsterm': run_mpsterm, 'ctor': run_ctor, 'species': run_species})
+    f = KINDS[payload['kind']]
+    tr = Tracer() if payload.get('trace') else None
+    if tr:
+        import tenpy.networks.mps  # noqa: F401   (module-level code is not part of the table)
+        tr.start()
     res = []
     for c in payload['cases']:
         try:
             res.append(f(c))
         except Exception:
             res.append({'runner_error': traceback.format_exc()[-1200:]})
+    if tr:
+        tr.stop()
+        res = {'results': res, 'trace': tr.dump()}
     json.dump(res, open(sys.argv[2], 'w'))
 
 
